@@ -454,6 +454,15 @@ def fixed_cases(ctx: Ctx):
                                         ["threads", [[1, None], [2, None], [0, None]], "coop",
                                          [[0, run], [1, run + 3], [2, run]]]]}
     yield {"texts": texts2, "ops": [["threads", [[0, None], [1, None], [2, None], [1, None]], "os", []]]}
+    # a chart whose event times are exact half microseconds (120 BPM at 192 ticks per beat: ticks = 3 mod 6), with
+    # even and odd integer parts: how such a tie is rounded must not depend on the thread a parse runs on
+    tie = {"res": 192, "sync": [[0, "TS", 4], [0, "B", 120000], [600, "B", 96000]],
+           "events": [[t, f"section s{t}"] for t in (3, 9, 15, 21, 27, 603, 610)],
+           "tracks": {"ExpertSingle": [[t, "N", t % 5, 6] for t in (3, 9, 15, 21, 27, 33, 39, 605, 615)]}}
+    tie_texts = [S.render(tie), S.render(a)]
+    yield {"texts": tie_texts, "ops": [["parse", 0, None], ["threads", [[0, None], [1, None]], "coop", [[0, 5], [1, 5]]],
+                                       ["threads", [[0, None], [0, None], [1, None]], "os", []], ["parse", 0, None]]}
+    yield {"texts": tie_texts, "ops": [["threads", [[0, None]], "os", []], ["threads", [[0, None]], "coop", [[0, 9]]]]}
     # charts with LONG tempo maps of equal length but other ticks, alternating with charts of that kind that fail
     # after their [SyncTrack] was read (their objects are released at once, so that a later chart's objects come to
     # lie at the same addresses): whatever a parse keeps about an object must not outlive the object
